@@ -28,19 +28,19 @@ theorem inv_callerClose (h : step c s .callerClose = some s') :
   · simp at h
 
 theorem inv_callerRetCtx (hw : c.wiring = Wiring.std) (h : step c s .callerRetCtx = some s') :
-    s.caller.closed = true ∧ s.caller.ret = none ∧ s.cancelled = true ∧
+    s.caller.closed = true ∧ s.caller.ret = none ∧ s.cancelledCtx c.waitCtx = true ∧
     s' = addLog { s with caller := { s.caller with ret := some [.ctxErr] } } (.waitReturned [.ctxErr]) := by
   simp only [step, hw, Wiring.std] at h
   split at h
   · next hc => simp at h hc; exact ⟨hc.1.1, hc.1.2, hc.2, h.symm⟩
   · simp at h
 
-def retVal (s : State) : List Res :=
-  if s.loop.err.isEmpty then (if s.cancelled then [.ctxErr] else []) else s.loop.err
+def retVal (c : Cfg) (s : State) : List Res :=
+  if s.loop.err.isEmpty then (if s.cancelledCtx c.waitCtx then [.ctxErr] else []) else s.loop.err
 
 theorem inv_callerRetFin (h : step c s .callerRetFin = some s') :
     s.caller.closed = true ∧ s.caller.ret = none ∧ s.loop.phase = .exited ∧
-    s' = addLog { s with caller := { s.caller with ret := some (retVal s) } } (.waitReturned (retVal s)) := by
+    s' = addLog { s with caller := { s.caller with ret := some (retVal c s) } } (.waitReturned (retVal c s)) := by
   simp only [step] at h
   split at h
   · next hc => simp at h hc; exact ⟨hc.1.1, hc.1.2, hc.2, by rw [← h]; simp [retVal]⟩
@@ -105,39 +105,41 @@ theorem inv_loopClose (hw : c.wiring = Wiring.std) (h : step c s .loopClose = so
 
 theorem inv_workerDecide (hw : c.wiring = Wiring.std) {w : Nat} (h : step c s (.workerDecide w) = some s') :
     ∃ j, s.ws[w]? = some (.holding j) ∧
-      ((s.cancelled = true ∧ s' = addLog (setW s w (.posting j .ctxErr)) (.skipped j .ctx)) ∨
-       (s.cancelled = false ∧ (Loop.job s.loop j).invalid = true ∧
+      ((s.cancelledCtx (c.ctxOfJob j) = true ∧ s' = addLog (setW s w (.posting j .ctxErr)) (.skipped j .ctx)) ∨
+       (s.cancelledCtx (c.ctxOfJob j) = false ∧ (Loop.job s.loop j).invalid = true ∧
           s' = addLog (setW s w (.posting j .invalid)) (.skipped j .invalid)) ∨
-       (s.cancelled = false ∧ (Loop.job s.loop j).invalid = false ∧
+       (s.cancelledCtx (c.ctxOfJob j) = false ∧ (Loop.job s.loop j).invalid = false ∧
           s' = addLog (setW s w (.running j)) (.started j))) := by
   simp only [step, hw, Wiring.std] at h
   split at h
   · next j hj =>
     refine ⟨j, hj, ?_⟩
-    by_cases hc : s.cancelled = true
+    by_cases hc : s.cancelledCtx (c.ctxOfJob j) = true
     · simp [hc] at h; exact Or.inl ⟨hc, h.symm⟩
-    · have hc' : s.cancelled = false := by simpa using hc
+    · have hc' : s.cancelledCtx (c.ctxOfJob j) = false := by simpa using hc
       by_cases hi : (Loop.job s.loop j).invalid = true
       · simp [hc', hi] at h; exact Or.inr (Or.inl ⟨hc', hi, h.symm⟩)
       · have hi' : (Loop.job s.loop j).invalid = false := by simpa using hi
         simp [hc', hi'] at h; exact Or.inr (Or.inr ⟨hc', hi', h.symm⟩)
   · simp at h
 
-/-- The state right after the body of `j` ended with outcome `o` (and possibly cancelled the context). -/
-def afterBody (s : State) (j : Nat) (o : Outcome) (cancel : Bool) : State :=
-  if cancel && !s.cancelled then addLog { addLog s (.ended j o) with cancelled := true } .cancelled
+/-- The state right after the body of `j` ended with outcome `o` (and possibly cancelled its
+    own context). -/
+def afterBody (c : Cfg) (s : State) (j : Nat) (o : Outcome) (cancel : Bool) : State :=
+  if cancel && !s.cancelledCtx (c.ctxOfJob j)
+  then addLog ((addLog s (.ended j o)).cancelCtx (c.ctxOfJob j)) (.cancelled (c.ctxOfJob j))
   else addLog s (.ended j o)
 
 theorem inv_workerEnd {w : Nat} {o : Outcome} {cancel : Bool} (h : step c s (.workerEnd w o cancel) = some s') :
     ∃ j, s.ws[w]? = some (.running j) ∧
-      s' = setW (afterBody s j o cancel) w (if o = .goexit then .dying j else .posting j (outcomeRes o)) := by
+      s' = setW (afterBody c s j o cancel) w (if o = .goexit then .dying j else .posting j (outcomeRes o)) := by
   simp only [step] at h
   split at h
   · next j hj =>
     refine ⟨j, hj, ?_⟩
-    have e : (if (cancel && !(addLog s (Ev.ended j o)).cancelled) = true
-        then addLog { addLog s (Ev.ended j o) with cancelled := true } Ev.cancelled
-        else addLog s (Ev.ended j o)) = afterBody s j o cancel := by
+    have e : (if (cancel && !(addLog s (Ev.ended j o)).cancelledCtx (c.ctxOfJob j)) = true
+        then addLog ((addLog s (Ev.ended j o)).cancelCtx (c.ctxOfJob j)) (Ev.cancelled (c.ctxOfJob j))
+        else addLog s (Ev.ended j o)) = afterBody c s j o cancel := by
       simp [afterBody]
     rw [e] at h
     cases o <;> simp at h <;> simp [h.symm]
@@ -175,11 +177,31 @@ theorem inv_workerExit {w : Nat} (h : step c s (.workerExit w) = some s') :
     · simp at h
   · simp at h
 
-theorem inv_cancel (h : step c s .cancel = some s') :
-    s.cancelled = false ∧ s' = addLog { s with cancelled := true } .cancelled := by
+theorem inv_cancel {x : Nat} (h : step c s (.cancel x) = some s') :
+    s.cancelledCtx x = false ∧ x ∈ c.ctxs ∧ s' = addLog (s.cancelCtx x) (.cancelled x) := by
   simp only [step] at h
   split at h
-  · next hc => simp at h hc; exact ⟨hc, h.symm⟩
+  · next hc => simp at h hc; exact ⟨hc.1, hc.2, h.symm⟩
   · simp at h
+
+/-- `afterBody` only appends to the log and (possibly) cancels the job's own context. -/
+theorem afterBody_frame (c : Cfg) (s : State) (j : Nat) (o : Outcome) (cancel : Bool) :
+    (afterBody c s j o cancel).loop = s.loop ∧ (afterBody c s j o cancel).ws = s.ws ∧
+    (afterBody c s j o cancel).donec = s.donec ∧ (afterBody c s j o cancel).enq = s.enq ∧
+    (afterBody c s j o cancel).caller = s.caller := by
+  unfold afterBody; split <;> simp
+
+/-- The log after `afterBody`: the `ended` event and possibly a `cancelled` one. -/
+theorem afterBody_log (c : Cfg) (s : State) (j : Nat) (o : Outcome) (cancel : Bool) :
+    (afterBody c s j o cancel).log = s.log ++ [Ev.ended j o] ∨
+    (afterBody c s j o cancel).log = s.log ++ [Ev.ended j o, Ev.cancelled (c.ctxOfJob j)] := by
+  unfold afterBody; split <;> simp
+
+/-- Cancellation is monotone across `afterBody`. -/
+theorem afterBody_cancelledCtx_mono (c : Cfg) (s : State) (j : Nat) (o : Outcome) (cancel : Bool)
+    (x : Nat) (h : s.cancelledCtx x = true) : (afterBody c s j o cancel).cancelledCtx x = true := by
+  unfold afterBody; split
+  · simp [cancelCtx_cancelledCtx, h]
+  · simpa using h
 
 end Sched
